@@ -7,7 +7,7 @@ use kmer::kmer::KmerGenerator;
 use refmodel::gen::{gen_len, gen_seq_any};
 use refmodel::json::{parse_bytes, Json};
 use refmodel::model;
-use refmodel::rng::{hash_bytes, Rng};
+use refmodel::rng::{hash_bytes, mix, Rng};
 
 fn case_json(seq: &[u8], k: usize) -> Json {
     Json::obj().set("seq", Json::bytes(seq)).set("k", Json::u(k))
@@ -47,11 +47,69 @@ pub fn check(seq: &[u8], k: usize) -> Option<(String, String)> {
     None
 }
 
+/// The iterator protocol beyond `next()` in a loop: the same items must come out whatever std adaptor
+/// consumes the iterator (fold-based ones after some `next()` calls, count, last, nth, skip), and an
+/// exhausted iterator yields nothing more.
+pub fn check_protocol(seq: &[u8], k: usize) -> Option<(String, String)> {
+    let exp: Vec<u64> = model::windows(seq, k).into_iter().map(|w| w.1).collect();
+    let r = guarded(|| {
+        for j in [1usize, 2, exp.len() / 2, exp.len()] {
+            if j > exp.len() {
+                continue;
+            }
+            let mut it = KmerGenerator::new(seq, k);
+            for _ in 0..j {
+                it.next();
+            }
+            let rest: Vec<u64> = it.fold(Vec::new(), |mut v, x| {
+                v.push(x.0);
+                v
+            });
+            if rest != exp[j..] {
+                return Some(("kmer.protocol.fold_after_next".to_string(), format!("after {} next() calls, fold() delivers {} items, {} remain", j, rest.len(), exp.len() - j)));
+            }
+        }
+        let mut it = KmerGenerator::new(seq, k);
+        it.next();
+        let c = it.count();
+        if c != exp.len().saturating_sub(1) {
+            return Some(("kmer.protocol.count".to_string(), format!("count() after one next() = {}, expected {}", c, exp.len().saturating_sub(1))));
+        }
+        if KmerGenerator::new(seq, k).last().map(|x| x.0) != exp.last().copied() {
+            return Some(("kmer.protocol.last".to_string(), "last() differs from the last valid window".to_string()));
+        }
+        let n = exp.len() / 3;
+        if KmerGenerator::new(seq, k).nth(n).map(|x| x.0) != exp.get(n).copied() {
+            return Some(("kmer.protocol.nth".to_string(), format!("nth({}) differs", n)));
+        }
+        let sk: Vec<u64> = KmerGenerator::new(seq, k).skip(1).step_by(2).map(|x| x.0).collect();
+        let want: Vec<u64> = exp.iter().skip(1).step_by(2).copied().collect();
+        if sk != want {
+            return Some(("kmer.protocol.skip_step".to_string(), "skip(1).step_by(2) differs".to_string()));
+        }
+        let mut it = KmerGenerator::new(seq, k);
+        while it.next().is_some() {}
+        if it.next().is_some() || it.next().is_some() {
+            return Some(("kmer.protocol.after_end".to_string(), "an exhausted iterator yielded another item".to_string()));
+        }
+        None
+    });
+    match r {
+        Ok(v) => v,
+        Err(p) => Some((panic_sig(&p), format!("iterator panicked under an adaptor: {}", p))),
+    }
+}
+
 fn judge(st: &mut Stats, seq: &[u8], k: usize) {
     let nontrivial = seq.len() >= k;
     st.case(nontrivial, key(seq, k));
     if let Some((sig, msg)) = check(seq, k) {
         st.violate(&sig, msg, case_json(seq, k));
+    } else if seq.len() < 4000 && (st.evaluations % 8 == 0) {
+        if let Some((sig, msg)) = check_protocol(seq, k) {
+            st.violate(&sig, msg, case_json(seq, k));
+        }
+        st.class("protocol-checked");
     }
 }
 
@@ -168,4 +226,38 @@ pub fn replay(case: &Json, st: &mut Stats) {
     let seq = parse_bytes(case.get("seq").and_then(|s| s.as_str()).unwrap_or(""));
     let k = case.get("k").and_then(|k| k.as_i()).unwrap_or(1) as usize;
     judge(st, &seq, k);
+}
+
+/// very long runs of ambiguous bytes / very long clean runs (depth- or width-dependent behaviour of the
+/// iterator: recursion, counters): a dozen directed cases per k class; a stack overflow kills the stage
+/// process and is reported by the driver from the current-case record
+pub fn longruns(ctx: &Ctx) -> Stats {
+    let mut st = Stats::new();
+    let runs: &[usize] = if ctx.tier == Tier::Quick { &[12_000, 70_000, 400_000] } else { &[12_000, 70_000, 400_000, 3_000_000] };
+    let mut i = 0u64;
+    for &run in runs {
+        for &k in &[1usize, 4, 15, 31] {
+            for &amb in &[b'N', 0xC3u8] {
+                i += 1;
+                let mut rng = Rng::keyed(ctx.seed, "c01.longruns", i);
+                let mut seq: Vec<u8> = (0..k + 3).map(|_| *rng.pick(b"ACGT")).collect();
+                seq.extend(std::iter::repeat(amb).take(run));
+                seq.extend((0..k + 2).map(|_| *rng.pick(b"acgu")));
+                // and a long clean stretch in the same sequence
+                seq.push(b'-');
+                seq.extend((0..(run / 2).min(300_000)).map(|_| *rng.pick(b"ACGT")));
+                let case = Json::obj().set("layout", Json::s(format!("{} clean + {} x 0x{:02x} + {} clean + '-' + {} clean", k + 3, run, amb, k + 2, (run / 2).min(300_000)))).set("k", Json::u(k));
+                note_current_case(ctx, &case);
+                st.case(true, mix(i) ^ mix(run as u64));
+                st.class(&format!("ambiguous-run={}", run));
+                if let Some((sig, msg)) = check(&seq, k) {
+                    st.violate(&format!("{}:longrun", sig), msg, case.clone());
+                }
+                if i % 7 == 1 {
+                    st.sample(case);
+                }
+            }
+        }
+    }
+    st
 }
